@@ -279,6 +279,11 @@ func registerReflect(p *Program) {
 		r := e.asRVal(a[0])
 		return sym.BoolC(r != nil && r.Addr != nil)
 	})
+	// CanSet: addressable and not reached through an unexported field (the model never yields such values)
+	reg("(reflect.Value).CanSet", func(e *Exec, a []Value) Value {
+		r := e.asRVal(a[0])
+		return sym.BoolC(r != nil && r.Addr != nil)
+	})
 	reg("(reflect.Value).Addr", func(e *Exec, a []Value) Value {
 		r := e.asRVal(a[0])
 		if r == nil || r.Addr == nil {
